@@ -63,6 +63,14 @@ Theorem C05_refuted : exists cs ord evs s,
 Proof. exact C05_refuted_lemma. Qed.
 Print Assumptions C05_refuted.
 
+(* Neither flag can be dropped from W_C05: one accepted history violates the monitor having gone through
+   the dup window only (wit1), another through the zombie window only (RelC05.Witness.wit2, 79 events). *)
+Theorem C05_windows_needed :
+  (exists cs ord evs s, accept (init cs ord) evs = Some s /\ w_zombie (final_obs cs evs) = false /\ holds_C05 cs evs = false) /\
+  (exists cs ord evs s, accept (init cs ord) evs = Some s /\ w_dup (final_obs cs evs) = false /\ holds_C05 cs evs = false).
+Proof. exact C05_windows_needed_lemma. Qed.
+Print Assumptions C05_windows_needed.
+
 (* (a) in words: once a thread has logged a failed dependency wait it never logs a launch attempt
    (Commander.Start) again; a thread serves one instance, so: the dependent's command is never launched. *)
 Theorem C05_never_launched : forall cs ord p1 th k p2 ok p3 s,
